@@ -101,6 +101,17 @@ PIPELINES = {
         "drivers": [{"name": "all", "cmd": ["secrets", "{out}", "{tier}"], "chunk": 100000, "random": True, "require_cov": ["channelsMissing=0"]}],
         "min_events": 100,
     },
+    # the command line tool as a set of output channels (everything it prints, its certificate files), with write faults
+    "clisecrets": {
+        "variants": ["ring"],
+        "cli_builds": ["ring", "awslc"],
+        "mc": [],
+        "drivers": [
+            {"name": "ring", "cmd": ["cli-secrets", "{out}", "{cli_ring}", "{workdir}", "{tier}"], "chunk": 100000, "require_cov": ["cliChannelsMissing=0"]},
+            {"name": "awslc", "cmd": ["cli-secrets", "{out}", "{cli_awslc}", "{workdir}", "{tier}"], "chunk": 100000, "require_cov": ["cliChannelsMissing=0"]},
+        ],
+        "min_events": 50,
+    },
     # whole sessions: behaviours of MC_Session (tlc -simulate) replayed step by step, every step judged by all clauses
     "sessions": {
         "variants": ["ring"],
@@ -228,8 +239,8 @@ PROPS = {
     "C03": _p("model_checking", ["import", "sessions", "cert"], ["C03."],
               "MC_Import.Cases: issuer names = all RDN sequences of 0..2 (quick) / 0..3 (thorough) attributes over 6 types with repetition x string kinds, 4x4 key-identifier methods, 6x(2|6) key algorithms, SKI present/absent; issuer origin in {rcgen direct, rcgen imported via DER/PEM, OpenSSL-generated imported via DER/PEM}; each chain leaf -> original CA judged by OpenSSL and webpki; plus the issuer-name clause on every issuer-signed certificate of MC_Cert",
               ops=["ImportCa", "Chain", "Cert"], exhaustive=True),
-    "C19": _p("exploration", ["secrets"], ["C19."],
-              "every output channel of Secrets!Channels (artefact DER/PEM, public key exports, Debug renderings of 9 types, Display/Debug of errors from truncated / corrupted / mislabelled / legacy-labelled / misfitting key loads through every loader and from key material offered to the certificate, CSR and SPKI parsers, key-then-certificate bundles) x key algorithm (Ed25519, P-256, P-384, RSA-2048, P-521 under aws-lc-rs) x back end x loading path; each channel searched for every 12-byte window of the private scalar / seed / RSA d, p, q, dP, dQ, qInv in raw, hex (any case, separators, both nibble alignments), decimal-list and base64 (4 alignments, both alphabets) form; the export functions must be found to contain the key (non-vacuity of the search); coverage predicate: every channel seen; distinct by (channel, algorithm, back end, loading path)",
+    "C19": _p("exploration", ["secrets", "clisecrets"], ["C19."],
+              "every output channel of Secrets!Channels (the command line tool under both back ends: stdout/stderr of successful runs and of runs that cannot create the output directory, a key file or a certificate file at each of the four write points, and its certificate files; artefact DER/PEM, public key exports, Debug renderings of 9 types, Display/Debug of errors from truncated / corrupted / mislabelled / legacy-labelled / misfitting key loads through every loader and from key material offered to the certificate, CSR and SPKI parsers, key-then-certificate bundles) x key algorithm (Ed25519, P-256, P-384, RSA-2048, P-521 under aws-lc-rs) x back end x loading path; each channel searched for every 12-byte window of the private scalar / seed / RSA d, p, q, dP, dQ, qInv in raw, hex (any case, separators, both nibble alignments), decimal-list and base64 (4 alignments, both alphabets) form; the export functions must be found to contain the key (non-vacuity of the search); coverage predicate: every channel seen; distinct by (channel, algorithm, back end, loading path)",
               ops=["Channel"], exhaustive=False),
     "C20": _p("model_checking", ["dn", "sessions"], ["C20."],
               "cases = every sequence of exactly MaxOps (4 quick / 5 thorough) push/remove operations over 3-4 attribute types x 2 values (MC_Names.Histories), each followed by equality probes against freshly built names (same enumeration, proper prefix, reversed, last value changed) and by issuing a certificate whose subject is decoded; plus random walks of length 200 over 10 types and 6 value kinds; distinct by (operation, arguments) event",
